@@ -80,7 +80,7 @@ func runNative(ld *Loaded, cases []ReplayCase, race bool, isolate bool) (map[int
 	os.WriteFile(casePath, cj, 0o644)
 
 	var log bytes.Buffer
-	env := append(os.Environ(), "GOFLAGS=-mod=mod", "GOPROXY=off", "GOSUMDB=off", "GOTOOLCHAIN=local")
+	env := append(os.Environ(), "GOFLAGS=-mod=mod", "GOPROXY=off", "GOSUMDB=off", "GOTOOLCHAIN=local", "RUNEWIDTH_EASTASIAN=0")
 	parse := func(out []byte) {
 		sc := bufio.NewScanner(bytes.NewReader(out))
 		sc.Buffer(make([]byte, 1<<20), 1<<26)
